@@ -21,7 +21,8 @@ RULE = ("every item sequence (with repetition) up to the stated length x 4 prefi
 ASSUMPTIONS = ["with a repeated heading text only conservation of the ACE multiset is required "
                "(C15's wording); remarks may merge", "TCAM formula as stated in C15"]
 REQUIRED = ["grouped_2plus_blocks", "text_unchanged_by_group_ungroup", "permutation_moved_block",
-            "sort_restored", "tcam_with_group_members", "heading_only_block", "no_leading_heading"]
+            "sort_restored", "tcam_with_group_members", "heading_only_block", "no_leading_heading",
+            "mixed_list_regrouped"]
 PREFIXES = ["= ", "=", "x", ""]
 
 
@@ -190,6 +191,21 @@ def script(idx, prefix, ctx, platform="ios"):
             if acl.line != numbered:
                 ctx.viol("Acl.sort:after_reverse", dict(case, grouped=grouped), acl.line, numbered)
                 return
+        # a loose entry appended to a grouped ACL, then group() again: with distinct headings the
+        # text must not change (the loose entry joins the last block, nothing moves)
+        if prefix and distinct and heads:
+            from cisco_acl import Ace
+
+            acl2 = PR.build_acl(lst, platform)
+            acl2.group(prefix)
+            acl2.append(Ace("permit icmp any any", platform=platform))
+            before = PR.flat_lines(acl2)
+            acl2.group(prefix)
+            ctx.trans()
+            if PR.flat_lines(acl2) != before:
+                ctx.viol("Acl.group:text_changed_on_mixed_list", case, PR.flat_lines(acl2), before)
+                return
+            ctx.out("mixed_list_regrouped")
     except Exception as ex:  # noqa
         ctx.viol("script:unexpected_exception", case, repr(ex), "operations succeed")
         return
